@@ -545,6 +545,8 @@ class Reader(ABC):
         head = dict(zip(self.head.dtype.names, self.head.item()))
         scans = self.scans
 
+        # Compute the coordinates first: this may shift the timestamps (clock drift)
+        self.get_lonlat()
         times = self.get_times()
         line_numbers = scans["scan_line_number"]
         counts = self.get_counts()
